@@ -166,6 +166,31 @@ def run_storage_plan(plan):
     return res
 
 
+def enumerated_plans():
+    """Scripted generator: every accept/reject x slot decision sequence of a GeometricReservoirStorage for small
+    (k, n) - the random outcomes are enumerated exhaustively instead of sampled."""
+    import itertools
+    plans = []
+    for k in (1, 2, 3):
+        extra = 4 if k < 3 else 3
+        choices = [("rej", 0)] + [("acc", j) for j in range(k)]
+        for targets in (True, False):
+            for seq in itertools.product(choices, repeat=extra):
+                ops = [{"op": "update", "tag": i + 1, "rs": 1, "style": "pos"} for i in range(k)]
+                for i, (dec, slot) in enumerate(seq):
+                    op = {"op": "update", "tag": k + i + 1, "rs": 1, "style": "pos",
+                          "tape": {"u": ["tiny" if dec == "acc" else "hi"], "r": ["idx:%d" % slot]}}
+                    ops.append(op)
+                plans.append({"property": "C07", "kind": "storage",
+                              "config": {"storage": {"kind": "geometric", "size": k, "targets": targets, "p": [1, 2]},
+                                         "rng": "tape", "enumerated": True},
+                              "ops": ops, "rs0": 1})
+    return plans
+
+
+_ENUM = None
+
+
 class C07Check(Check):
     prop = "C07"
     design_ref = "DESIGN.md section 4, C07"
@@ -177,14 +202,30 @@ class C07Check(Check):
     assumptions = ["rows carry unique tags, so every stored object is attributable to one arrival",
                    "adversary tape keeps uniforms in the open interval (0,1)"]
 
+    def enum(self):
+        global _ENUM
+        if _ENUM is None:
+            _ENUM = enumerated_plans()
+        return _ENUM
+
     def n_runs(self, tier):
-        return self.runs[tier]
+        return self.runs[tier] + len(self.enum())
 
     def gen(self, seed, tier, run_index):
+        e = self.enum()
+        if run_index < len(e):
+            return copy.deepcopy(e[run_index])
         return gen_plan(seeds.run_rng(seed, self.prop, tier, run_index), self.prop)
 
     def run(self, plan):
-        return run_storage_plan(plan)
+        res = run_storage_plan(plan)
+        if plan["config"].get("enumerated"):
+            res["probes"]["enumerated_decision_sequence"] = 1
+        return res
+
+    def extra_evidence(self, merged):
+        return {"exhaustive_stratum": "every accept/reject x slot decision sequence of GeometricReservoirStorage for "
+                                      "k in {1,2,3}, n <= k+4 (k=3: k+3), store_targets on/off: %d scripted plans" % len(self.enum())}
 
     def reductions(self, plan):
         out = []
